@@ -81,15 +81,31 @@ Section WithOracle.
     match schmidt_number svd len a with
     | ErrNotSquare => forall d : nat, len <> (d * d)%nat
     | ErrSvd => (exists d : nat, len = (d * d)%nat) /\ svd (side_of_len (N.of_nat len)) (mag_matrix (side_of_len (N.of_nat len)) a) = None
-    | OkK k => exists d : nat, len = (d * d)%nat /\ k = schmidt_K ROps d (mag_matrix d a)
+    | OkNaN => exists d : nat, len = (d * d)%nat /\ forall i j, (i < d)%nat -> (j < d)%nat -> mag_matrix d a i j = 0
+    | OkK k => exists d : nat, len = (d * d)%nat /\ trG2 ROps d (mag_matrix d a) <> 0 /\ k = schmidt_K ROps d (mag_matrix d a)
     end.
   Proof.
     unfold schmidt_number. destruct (accepted_len (N.of_nat len)) eqn:E.
     - apply accepted_len_nat in E. destruct E as [d ->]. rewrite side_of_len_square.
       destruct (svd d (mag_matrix d a)) as [sv|] eqn:Es.
-      + exists d. split; [reflexivity|]. apply schmidt_of_sv_trace. apply svd_contract. exact Es.
+      + pose proof (svd_contract _ _ _ Es) as Hsv. destruct (svd_power_sums d _ sv Hsv) as [_ E4].
+        destruct (Req_EM_T (sv_kinv d sv) 0) as [Z|NZ].
+        * exists d. split; [reflexivity|]. apply trG2_zero_iff. rewrite <- E4. exact Z.
+        * exists d. split; [reflexivity|]. split; [rewrite <- E4; exact NZ|]. apply schmidt_of_sv_trace. exact Hsv.
       + split; [exists d; reflexivity|reflexivity].
     - intros d Hd. assert (accepted_len (N.of_nat len) = true) by (apply accepted_len_nat; exists d; exact Hd). congruence.
+  Qed.
+
+  (* Ok(NaN) exactly for an all-zero magnitude matrix *)
+  Theorem schmidt_number_nan_iff (d : nat) (a : nat -> cx R) :
+    svd d (mag_matrix d a) <> None ->
+    (schmidt_number svd (d * d) a = OkNaN <-> forall i j, (i < d)%nat -> (j < d)%nat -> mag_matrix d a i j = 0).
+  Proof.
+    intros Hs. unfold schmidt_number.
+    assert (E : accepted_len (N.of_nat (d * d)) = true) by (apply accepted_len_nat; exists d; reflexivity).
+    rewrite E, side_of_len_square. destruct (svd d (mag_matrix d a)) as [sv|] eqn:Es; [|contradiction Hs; reflexivity].
+    pose proof (svd_contract _ _ _ Es) as Hsv. destruct (svd_power_sums d _ sv Hsv) as [_ E4].
+    rewrite <- trG2_zero_iff, <- E4. destruct (Req_EM_T (sv_kinv d sv) 0); split; intros H; try reflexivity; try discriminate; try assumption; contradiction.
   Qed.
 
   (* a non-square length is rejected whatever the content; a square one never is *)
@@ -105,7 +121,20 @@ End WithOracle.
 
 Theorem svd_link n M sv :
   is_svd n M sv ->
-  sv_norm_squared n sv = trG ROps n M /\ sv_kinv n sv = trG2 ROps n M /\ schmidt_of_sv n sv = schmidt_K ROps n M.
+  sv_norm_squared n sv = trG ROps n M /\ sv_kinv n sv = trG2 ROps n M /\
+  (trG2 ROps n M <> 0 -> sv_kinv n sv <> 0 /\ schmidt_of_sv n sv = schmidt_K ROps n M).
 Proof.
-  intros H. destruct (svd_power_sums n M sv H) as [E2 E4]. repeat split; try assumption. apply schmidt_of_sv_trace; assumption.
+  intros H. destruct (svd_power_sums n M sv H) as [E2 E4]. repeat split; try assumption.
+  - rewrite E4. assumption.
+  - apply schmidt_of_sv_trace; assumption.
+Qed.
+
+(* non-vacuity with a genuinely two-dimensional factorisation: [[0,2],[3,0]] = I diag(2,3) P^T, P the swap *)
+Example svd_example_2 : is_svd 2 (fun i j => if Nat.eqb i j then 0 else if Nat.eqb i 0 then 2 else 3) (fun k => if Nat.eqb k 0 then 2 else 3).
+Proof.
+  exists (fun i k => if Nat.eqb i k then 1 else 0), (fun j k => if Nat.eqb j k then 0 else 1).
+  unfold orthonormal_cols, rsum. repeat split; intros;
+  repeat match goal with
+  | H : (?x < 2)%nat |- _ => (destruct x as [|[|?]]; [| |lia]); clear H
+  end; cbn; lra.
 Qed.
